@@ -40,6 +40,12 @@ def run(pid, tier, seed, replay=None):
             if pid != 'C03' and r['verdict'] not in ('ok',):
                 # a run that did not finish cannot witness this property; C03 reports it.  Still a tie problem here.
                 fails.append(T.fail(s, r, 'run did not complete (%s %s): reported under C03; this property was not observable' % (r['verdict'], r['detail']), states=r['states']))
+        if pid == 'C01':
+            # communicators other than MPI_COMM_WORLD
+            from . import subcomm
+            sf, nmsg = subcomm.explore(seed_, tier_)
+            fails += sf
+            state['subcomm_messages'] = state.get('subcomm_messages', 0) + nmsg
         if pid == 'C02':
             # the implicit barrier in the destructor of every container kind
             from . import dtor
@@ -87,6 +93,7 @@ def run(pid, tier, seed, replay=None):
                 'extra': {'distribution': dist, 'lockstep_runs': len(ls), 'lockstep_events': sum(l.get('events', 0) for s, l in ls),
                           'lockstep_disagreements': state.get('lockstep_bad', []),
                           'container_destructor_observations': state.get('dtor_observations', 0),
+                          'messages_on_non_world_communicators': state.get('subcomm_messages', 0),
                           'replayed_scenarios_satisfying_the_theorem_hypotheses': sum(1 for s, l in ls if l.get('legal') == 'ok')}}
     def search():
         found = []
